@@ -33,6 +33,10 @@ PROTECTED_METHODS = {"initialize"}
 def _droppable(op):
     if op["k"] == "msg" and op["m"].get("method") in PROTECTED_METHODS:
         return False
+    if op["k"] == "obs" and op.get("what") == "saved":
+        return False  # the executor's precondition check must survive minimisation
+    if op["k"] == "battery":
+        return False
     return True
 
 
